@@ -33,7 +33,10 @@ def do_export(tr, fmt, d, node_ids=None):
     from funtracks.import_export.export_to_geff import export_to_geff
     from funtracks.import_export.internal_format import save_tracks
     if fmt == "csv":
-        export_to_csv(tr, d / "t.csv", node_ids=node_ids)
+        if tr.segmentation is not None and node_ids:
+            export_to_csv(tr, d / "t.csv", node_ids=node_ids, export_seg=True, seg_path=d / "t.tif")
+        else:
+            export_to_csv(tr, d / "t.csv", node_ids=node_ids)
     elif fmt == "geff":
         export_to_geff(tr, d / "g", node_ids=node_ids)
     elif fmt == "internal":
@@ -54,9 +57,14 @@ def read_back(cfg, tr, fmt, d):
     if fmt == "geff":
         nm = {"time": tr.features.time_key, "pos": axes, "track_id": "track_id", "lineage_id": "lineage_id"}
         kw = {}
+        if core.CUSTOM_KEY in tr.features and any(core.CUSTOM_KEY in a for _, a in tr.graph.nodes(data=True)):
+            # a static feature that only some nodes carry is loaded, not recomputed
+            nm[core.CUSTOM_KEY] = core.CUSTOM_KEY
+            kw["node_features"] = {core.CUSTOM_KEY: False}
         if tr.segmentation is not None:
             nm["area"] = "area"
-            kw = {"segmentation_path": d / "g" / "segmentation", "node_features": {"area": False}}
+            kw.update({"segmentation_path": d / "g" / "segmentation"})
+            kw["node_features"] = dict(kw.get("node_features", {}), area=False)
             if tr.scale is not None:
                 kw["scale"] = list(tr.scale)    # positions are in world units: the importer needs the scale
             if "iou" in tr.features and tr.graph.number_of_edges() > 0:
@@ -127,7 +135,7 @@ def records_for(cfg, path, what):
                     d.mkdir()
                     do_export(drv.tracks, fmt, d)
                     t2 = read_back(cfg, drv.tracks, fmt, d)
-                    rec["rt"] = core.project(t2, cfg)
+                    rec["rt"] = core.project(t2, cfg, nshift=drv.nshift)
                     rec["scale_rt"] = scale_of(t2)
                 except Exception as e:  # noqa: BLE001
                     rec["exc"] = type(e).__name__ + ": " + str(e)[:150]
@@ -143,13 +151,16 @@ def records_for(cfg, path, what):
                         k += 1
                         drv = replay.reach(cfg, path)
                         pre = drv.project()
-                        rec = {"kind": "sub", "fmt": fmt, "path": path, "pre": pre, "sel": list(sel), "exc": "",
+                        rec = {"kind": "sub", "fmt": fmt, "path": path, "pre": pre,
+                               "sel": [n + drv.nshift for n in sel], "exc": "",
                                "out_nodes": [], "out_edges": [], "out_seg": [], "dangling": 0}
                         try:
                             d = base / f"sub{k}"
                             d.mkdir()
                             do_export(drv.tracks, fmt, d, node_ids=set(sel))
                             read_subset(cfg, drv.tracks, fmt, d, rec)
+                            rec["out_nodes"] = [n + drv.nshift for n in rec["out_nodes"]]
+                            rec["out_edges"] = [[u + drv.nshift, v + drv.nshift] for u, v in rec["out_edges"]]
                         except Exception as e:  # noqa: BLE001
                             rec["exc"] = type(e).__name__ + ": " + str(e)[:150]
                         out.append(rec)
@@ -170,6 +181,14 @@ def read_subset(cfg, tr, fmt, d, rec):
             if not pd.isna(p):
                 edges.append([int(p), int(i)])
         rec["out_edges"] = edges
+        if (d / "t.tif").exists():
+            import tifffile
+            arr = np.asarray(tifffile.imread(d / "t.tif"))
+            if cfg.embed:
+                sub = arr[..., cfg.embed[1]]
+                rec["dangling"] = int(np.count_nonzero(arr)) - int(np.count_nonzero(sub))
+                arr = sub
+            rec["out_seg"] = [int(x) for x in arr.reshape(-1)]
     else:
         import geff
         import zarr
